@@ -184,7 +184,14 @@ pub fn apply(w: &mut RouterWorld, cfg: &Cfg, a: &Act) {
         }
         Act::Ping { c } => w.send(*c as usize, vec![Tx::PingReq]),
         Act::DiscPkt { c } => w.send(*c as usize, vec![Tx::Disconnect]),
-        Act::Drop { c } => end_link(w, *c as usize, vec![LateEv::Disconnect, LateEv::Will], true),
+        Act::Drop { c } => {
+            end_link(w, *c as usize, vec![LateEv::Disconnect, LateEv::Will], true);
+            if w.manual {
+                // the link task sends its last events at once: while the router is held they
+                // queue up behind whatever else is on the channel and share its next turn
+                w.deliver_auto_late();
+            }
+        }
         Act::DropLate { c } => {
             // C14: the ended link's Ready and DeviceData signals may be late as well
             let evs = if cfg.prop == "C14" {
@@ -795,6 +802,22 @@ fn enabled_c14(w: &RouterWorld, cfg: &Cfg, v: &mut Vec<(Act, u8)>) {
         }
     } else if can_connect(w, m) {
         v.push((Act::Connect { c: m, clean: cfg.variant != 1, will: 0 }, 0));
+    }
+    if cfg.variant == 3 {
+        // two offenders that share the victim's filter; what they do may fall into the same
+        // router turn as the traffic of the others (also while the router is held)
+        for o in [m, n] {
+            if live(w, o) {
+                v.push((Act::Drop { c: o }, 0));
+                v.push((Act::Batch { c: o, kind: 8 }, 0));
+                if w.manual {
+                    v.push((Act::Bad { c: o, kind: 0 }, 0));
+                }
+            }
+        }
+        if live(w, s) {
+            v.push((Act::Pub { c: s, t: 0, qos: 1, retain: false, empty: false, props: 0 }, 0));
+        }
     }
     if can_connect(w, n) {
         v.push((Act::Connect { c: n, clean: true, will: 0 }, 0));
